@@ -357,3 +357,7 @@ class C05(core.Prop):
 
 
 PROP = C05()
+
+# shape families added after the first complete pass (DESIGN 8.6-8.11); appended to the bounds written into the evidence
+BOUNDS_ADDED = '; plus: ring bonds inside a multiplied unit, free and upper-case annotations on multiplied units'
+PROP.BOUNDS = {k: v + BOUNDS_ADDED for k, v in PROP.BOUNDS.items()}
